@@ -110,4 +110,232 @@ Section Conv.
       + apply (HV' a). unfold node_at. cbn [g_w with_nodes w_nodes]. apply (nth_set_nth_same _ _ _ _ H).
       + eapply (process_message_keeps zc); [apply (gi_sent g Hg m H0)|exact H2].
   Qed.
+
+  (* ---------- a complete loss-free exchange a -> b, as four global steps ---------- *)
+  Definition hs_ops (a b : nat) (o1 o2 o3 : list id) : list gop :=
+    [OSyn a; ODeliver b 0%nat o1; ODeliver a 0%nat o2; ODeliver b 0%nat o3].
+
+  Lemma syn_reply_shape now n cl dg ord n' r e :
+    process_message zc now n (Syn cl dg) ord = Ok (n', r, e) -> cl = cf_cluster (nd_cfg n) ->
+    exists dgb x, r = Some (SynAck dgb x).
+  Proof.
+    unfold process_message. intros H ->.
+    assert (E : bytes_eqb (cf_cluster (nd_cfg n)) (cf_cluster (nd_cfg (update_self_heartbeat n))) = true)
+      by (apply bytes_eqb_eq; reflexivity).
+    rewrite E in H. cbn [negb] in H. destruct (P_MAX_UDP <? _); [discriminate|].
+    destruct (compute_delta zc _ dg _ _ ord); cbn [rmap] in H; try discriminate.
+    injection H as _ <- _. eauto.
+  Qed.
+
+  Lemma synack_reply_shape now n dg x ord n' r e :
+    process_message zc now n (SynAck dg x) ord = Ok (n', r, e) -> exists y, r = Some (Ack y).
+  Proof.
+    unfold process_message. intros H.
+    destruct (process_delta now _ x) as [[n2 evs2]| |]; cbn [rbind] in H; try discriminate.
+    destruct (compute_delta zc _ dg _ _ ord); cbn [rmap] in H; try discriminate.
+    injection H as _ <- _. eauto.
+  Qed.
+
+  Lemma gexec_syn g a g1 : gexec zc strict g (OSyn a) = Some g1 ->
+    exists na, node_at g a = Some na /\ g1 = mkG (g_w g) (create_syn_message (w_now (g_w g)) na :: g_sent g) (g_T g).
+  Proof. cbn [gexec]. destruct (node_at g a) as [na|]; [|discriminate]. intros [= <-]. eauto. Qed.
+
+  Lemma gexec_deliver g a ord g1 m rest : gexec zc strict g (ODeliver a 0%nat ord) = Some g1 -> g_sent g = m :: rest ->
+    exists n n' reply evs, node_at g a = Some n /\
+      process_message zc (w_now (g_w g)) n m ord = Ok (n', reply, evs) /\
+      g1 = mkG (with_nodes (g_w g) (set_nth (w_nodes (g_w g)) a n')) (opt_cons reply (g_sent g)) (bump_hb (g_T g) (self_id n)).
+  Proof.
+    cbn [gexec]. intros H Hs. rewrite Hs in H. cbn [nth_error] in H.
+    destruct (node_at g a) as [n|]; [|discriminate].
+    destruct (strict && msg_weak _ n m); [discriminate|].
+    destruct (process_message zc _ n m ord) as [[[n' reply] evs]| |] eqn:Ep; try discriminate.
+    injection H as <-. exists n, n', reply, evs. rewrite Hs. auto.
+  Qed.
+
+  (* what a same-cluster SYN does: the node after heartbeat reporting, its digest, the computed delta *)
+  Lemma syn_ok_inv now n dg ord n' dgb x e :
+    process_message zc now n (Syn (cf_cluster (nd_cfg n)) dg) ord = Ok (n', Some (SynAck dgb x), e) ->
+    let n1 := report_heartbeats_in_digest now (update_self_heartbeat n) dg in
+    n' = n1 /\ dgb = compute_digest (nd_cs n1) (scheduled now n1) /\
+    compute_delta zc (nd_cs n1) dg (P_MAX_UDP - (P_RESERVE_SYNACK + digest_len dgb)) (scheduled now n1) ord = Ok x.
+  Proof.
+    unfold process_message. intros H.
+    assert (E : bytes_eqb (cf_cluster (nd_cfg n)) (cf_cluster (nd_cfg (update_self_heartbeat n))) = true)
+      by (apply bytes_eqb_eq; reflexivity).
+    rewrite E in H. cbn [negb] in H. cbv zeta. destruct (P_MAX_UDP <? _); [discriminate|].
+    destruct (compute_delta zc _ dg _ _ ord) as [y| |] eqn:Ey; cbn [rmap] in H; try discriminate.
+    injection H as <- <- <- _. auto.
+  Qed.
+
+  Theorem lagging_exchange_raises V g a b o1 o2 o3 g' na nb X cb :
+    reachable zc strict g -> bounded V g -> a <> b ->
+    node_at g a = Some na -> node_at g b = Some nb ->
+    no_memory na -> scheduled (w_now (g_w g)) na = [] ->
+    cf_cluster (nd_cfg na) = cf_cluster (nd_cfg nb) ->
+    let now := w_now (g_w g) in
+    let dg := compute_digest (nd_cs na) [] in
+    let b1 := report_heartbeats_in_digest now (update_self_heartbeat nb) dg in
+    let sched := scheduled now b1 in
+    let mtu := P_MAX_UDP - (P_RESERVE_SYNACK + digest_len (compute_digest (nd_cs b1) sched)) in
+    (* a is behind b on a member b does not quarantine *)
+    nm_get X (cs_nodes (nd_cs nb)) = Some cb -> in_ids X sched = false ->
+    (match nm_get X (cs_nodes (nd_cs na)) with Some ca => c_max ca | None => 0 end) < c_max cb ->
+    (* the digest leaves room for one member header and one operation *)
+    (forall n rest, arrange o1 (stale_nodes (nd_cs b1) dg sched) = Some (n :: rest) -> P_MIN_MTU <= mtu /\ room mtu n) ->
+    gfold zc strict g (hs_ops a b o1 o2 o3) = Some g' ->
+    gpot V g + 1 <= gpot V g'.
+  Proof.
+    intros Hr HbV Hab Ha Hb Hmem Hsch Hcl now dg b1 sched mtu HX HXs Hlt Hroom Hrun.
+    unfold hs_ops in Hrun. cbn [gfold] in Hrun.
+    destruct (gexec zc strict g (OSyn a)) as [g1|] eqn:E1; [|discriminate].
+    destruct (gexec zc strict g1 (ODeliver b 0 o1)) as [g2|] eqn:E2; [|discriminate].
+    destruct (gexec zc strict g2 (ODeliver a 0 o2)) as [g3|] eqn:E3; [|discriminate].
+    destruct (gexec zc strict g3 (ODeliver b 0 o3)) as [g4|] eqn:E4; [|discriminate].
+    injection Hrun as <-.
+    (* reachability of the intermediate states *)
+    assert (Hr1 : reachable zc strict g1) by (eapply R_step; [exact Hr|eapply gexec_sound; exact E1]).
+    assert (Hr2 : reachable zc strict g2) by (eapply R_step; [exact Hr1|eapply gexec_sound; exact E2]).
+    assert (Hr3 : reachable zc strict g3) by (eapply R_step; [exact Hr2|eapply gexec_sound; exact E3]).
+    assert (Hr4 : reachable zc strict g4) by (eapply R_step; [exact Hr3|eapply gexec_sound; exact E4]).
+    (* step 1: the SYN *)
+    destruct (gexec_syn g a g1 E1) as (na' & Ha' & ->). rewrite Ha in Ha'. injection Ha' as <-.
+    set (syn := create_syn_message (w_now (g_w g)) na) in *.
+    assert (Hsyn : syn = Syn (cf_cluster (nd_cfg nb)) dg).
+    { unfold syn, create_syn_message. rewrite Hsch, Hcl. reflexivity. }
+    (* step 2: b answers *)
+    destruct (gexec_deliver _ b o1 g2 syn (g_sent g) E2 eq_refl) as (nb' & nb1 & r1 & e1 & Hb' & Hp1 & ->).
+    unfold node_at in Hb'. cbn [g_w] in Hb'. fold (node_at g b) in Hb'. rewrite Hb in Hb'. injection Hb' as <-.
+    cbn [g_w] in Hp1. fold now in Hp1. rewrite Hsyn in Hp1.
+    destruct (syn_reply_shape now nb _ dg o1 nb1 r1 e1 Hp1 eq_refl) as (dgb & x & ->).
+    destruct (syn_ok_inv now nb dg o1 nb1 dgb x e1 Hp1) as (Hnb1 & Hdgb & Hcd). fold b1 in Hnb1, Hdgb, Hcd. fold sched in Hdgb, Hcd.
+    subst nb1.
+    (* step 3: a applies the SYN-ACK *)
+    cbn [opt_cons] in E3.
+    destruct (gexec_deliver _ a o2 g3 (SynAck dgb x) (syn :: g_sent g) E3 eq_refl) as (na' & na1 & r2 & e2 & Ha' & Hp2 & ->).
+    unfold node_at in Ha'. cbn [g_w with_nodes w_nodes] in Ha'. rewrite nth_set_nth_other in Ha' by congruence.
+    fold (node_at g a) in Ha'. rewrite Ha in Ha'. injection Ha' as <-.
+    cbn [g_w with_nodes w_now] in Hp2. fold now in Hp2.
+    destruct (synack_reply_shape now na dgb x o2 na1 r2 e2 Hp2) as (y & ->).
+    (* step 4: b applies the ACK *)
+    cbn [opt_cons g_sent] in E4.
+    destruct (gexec_deliver _ b o3 g4 (Ack y) (SynAck dgb x :: syn :: g_sent g) E4 eq_refl) as (nb' & nb2 & r3 & e3 & Hb' & Hp3 & ->).
+    unfold node_at in Hb'. cbn [g_w with_nodes w_nodes] in Hb'.
+    rewrite nth_set_nth_other in Hb' by congruence.
+    rewrite (nth_set_nth_same _ _ _ _ Hb) in Hb'. injection Hb' as <-.
+    cbn [g_w with_nodes w_now] in Hp3. fold now in Hp3.
+    (* bounds along the way: deliveries do not move any owner's max version *)
+    set (g1 := mkG (g_w g) (syn :: g_sent g) (g_T g)) in *.
+    set (g2 := mkG (with_nodes (g_w g1) (set_nth (w_nodes (g_w g1)) b b1)) (opt_cons (Some (SynAck dgb x)) (g_sent g1)) (bump_hb (g_T g1) (self_id nb))) in *.
+    set (g3 := mkG (with_nodes (g_w g2) (set_nth (w_nodes (g_w g2)) a na1)) (opt_cons (Some (Ack y)) (g_sent g2)) (bump_hb (g_T g2) (self_id na))) in *.
+    assert (Hb1 : bounded V g1) by exact HbV.
+    assert (Hb2 : bounded V g2) by (intros Y; apply HbV).
+    assert (Hb3 : bounded V g3) by (intros Y; apply HbV).
+    match goal with |- _ <= gpot V ?gg => set (g4 := gg) in * end.
+    assert (Hb4 : bounded V g4) by (intros Y; apply HbV).
+    destruct (reachable_inv zc zc_len strict g Hr) as [Hg _].
+    destruct (reachable_inv zc zc_len strict g1 Hr1) as [Hg1 _].
+    destruct (reachable_inv zc zc_len strict g2 Hr2) as [Hg2 _].
+    destruct (reachable_inv zc zc_len strict g3 Hr3) as [Hg3 _].
+    (* nodes of the intermediate states *)
+    assert (Hb_g1 : node_at g1 b = Some nb) by exact Hb.
+    assert (Ha_g2 : node_at g2 a = Some na).
+    { unfold node_at, g2. cbn [g_w with_nodes w_nodes]. rewrite nth_set_nth_other by congruence. exact Ha. }
+    assert (Hb_g2 : node_at g2 b = Some b1).
+    { unfold node_at, g2. cbn [g_w with_nodes w_nodes]. apply (nth_set_nth_same _ _ _ _ Hb). }
+    assert (Hb_g3 : node_at g3 b = Some b1).
+    { unfold node_at, g3. cbn [g_w with_nodes w_nodes]. rewrite nth_set_nth_other by congruence. exact Hb_g2. }
+    assert (Ha_g3 : node_at g3 a = Some na1).
+    { unfold node_at, g3. cbn [g_w with_nodes w_nodes]. apply (nth_set_nth_same _ _ _ _ Ha_g2). }
+    (* potentials *)
+    assert (P01 : gpot V g = gpot V g1) by reflexivity.
+    assert (P12 : gpot V g1 <= gpot V g2).
+    { apply (gpot_set_node V g1 b nb b1); [exact Hb_g1|apply (gi_nodes g1 Hg1 b nb Hb_g1)|
+        apply (reachable_versions_below V g1 Hr1 Hb1 b nb Hb_g1)|apply (reachable_versions_below V g2 Hr2 Hb2 b b1 Hb_g2)|].
+      eapply (process_message_keeps zc); [|exact Hp1]. exact I. }
+    assert (P34 : gpot V g3 <= gpot V g4).
+    { apply (gpot_set_node V g3 b b1 nb2); [exact Hb_g3|apply (gi_nodes g3 Hg3 b b1 Hb_g3)|
+        apply (reachable_versions_below V g3 Hr3 Hb3 b b1 Hb_g3)| |].
+      - apply (reachable_versions_below V g4 Hr4 Hb4 b). unfold node_at, g4. cbn [g_w with_nodes w_nodes]. apply (nth_set_nth_same _ _ _ _ Hb_g3).
+      - eapply (process_message_keeps zc); [|exact Hp3].
+        apply (gi_sent g3 Hg3 (Ack y)). left. reflexivity. }
+    assert (P23 : gpot V g2 + 1 <= gpot V g3).
+    { apply (gpot_set_node_strict V g2 a na na1); [exact Ha_g2|].
+      (* the responder held something deliverable, in the legal order o1 *)
+      destruct (behind_implies_deliverable now na nb X cb (ni_inv _ _ (gi_nodes g Hg b nb Hb)) HX HXs Hlt) as (n0 & Hn0).
+      fold dg in Hn0. fold b1 in Hn0. fold sched in Hn0.
+      unfold compute_delta in Hcd.
+      destruct (arrange o1 (stale_nodes (nd_cs b1) dg sched)) as [ordered|] eqn:Earr; [|discriminate].
+      pose proof (arrange_perm _ _ _ Earr) as Hperm.
+      destruct ordered as [|n rest].
+      { apply Permutation_sym, Permutation_nil in Hperm. rewrite Hperm in Hn0. destruct Hn0. }
+      destruct (Hroom n rest eq_refl) as [Hmin Hrm].
+      (* the first stale member is not a itself: b is never ahead of a about a *)
+      assert (Hns : sn_id n <> self_id na).
+      { intros Heq.
+        assert (Hin : In n (stale_nodes (nd_cs b1) dg sched)) by (apply (Permutation_in _ (Permutation_sym Hperm)); left; reflexivity).
+        unfold stale_nodes in Hin. apply filter_map_in in Hin as ([i c1] & He & Hcand).
+        destruct (stale_candidate_some _ _ _ _ Hcand) as (Hid & _ & _ & Hrest). cbn [fst snd] in *.
+        assert (Hi : i = self_id na) by congruence. subst i. rewrite Heq in *.
+        destruct (gi_nodes g2 Hg2 a na Ha_g2) as [Hinv_a _ (cown & Hcown & Hmown & _)].
+        destruct (gi_nodes g2 Hg2 b b1 Hb_g2) as [Hinv_b1 Hint_b1 _].
+        pose proof (sorted_in_get id_cmp id_cmp_eq id_cmp_antisym id_cmp_trans _ _ _ (cli_sorted _ Hinv_b1) He) as Hget1.
+        destruct (Hint_b1 _ _ Hget1) as [_ Hm1 _ _].
+        assert (Hadv : match dg_get (self_id na) dg with Some g0 => (g_gc g0, g_max g0) | None => (0, 0) end = (c_gc cown, c_max cown)).
+        { pose proof (advertised_unquarantined (nd_cs na) (self_id na)) as A. unfold advertised in A. fold dg in A. rewrite A, Hcown. reflexivity. }
+        rewrite Hadv in Hrest. destruct Hrest as [Hl _]. lia. }
+      eapply (potential_rises_on_exchange zc zc_len V now now na nb o1 o2 b1 dgb x e1 n rest na1 (Some (Ack y)) e2);
+        try eassumption.
+      - apply (gi_nodes g Hg a na Ha).
+      - apply (gi_nodes g Hg b nb Hb).
+      - change (create_syn_message now na) with syn. rewrite Hsyn. exact Hp1.
+      - apply (reachable_versions_below V g2 Hr2 Hb2 a na Ha_g2).
+      - apply (reachable_versions_below V g3 Hr3 Hb3 a na1 Ha_g3). }
+    lia.
+  Qed.
+
+  (* ---------- along any schedule without liveness evaluations ---------- *)
+  Definition no_eval (g g' : gstate) : Prop :=
+    forall b nb oracle, g' <> mkG (with_nodes (g_w g) (set_nth (w_nodes (g_w g)) b (update_nodes_liveness (w_now (g_w g)) nb oracle))) (g_sent g) (g_T g).
+
+  Inductive gpath : list gstate -> Prop :=
+  | gp_one g : gpath [g]
+  | gp_step g g' rest : gstep zc strict g g' -> no_eval g g' -> gpath (g' :: rest) -> gpath (g :: g' :: rest).
+
+  Lemma gpath_potentials V l g0 :
+    gpath l -> hd g0 l = g0 -> reachable zc strict g0 -> Forall (bounded V) l -> nondecreasing (map (gpot V) l).
+  Proof.
+    intros Hp. revert g0. induction Hp as [g|g g' rest Hs Hne Hp IH]; intros g0 Hhd Hr Hb; [exact I|].
+    cbn in Hhd. subst g0. inversion Hb as [|? ? Hbg Hb']; subst. inversion Hb' as [|? ? Hbg' _]; subst.
+    cbn [map nondecreasing]. split; [apply (gpot_monotone V g g' Hr Hs Hbg' Hne)|].
+    apply (IH g' eq_refl); [eapply R_step; eauto|exact Hb'].
+  Qed.
+
+  (* the number of steps that raise the world potential along a schedule is at most the final
+     potential: in particular at most that many exchanges are performed by a lagging initiator *)
+  Theorem potential_rises_bounded V l g0 glast :
+    gpath l -> hd g0 l = g0 -> last l glast = glast -> reachable zc strict g0 -> Forall (bounded V) l ->
+    rises (map (gpot V) l) + gpot V g0 <= gpot V glast.
+  Proof.
+    intros Hp Hhd Hlast Hr Hb.
+    pose proof (rises_bound _ (gpath_potentials V l g0 Hp Hhd Hr Hb)) as H.
+    assert (Hne : l <> []) by (destruct Hp; discriminate).
+    assert (H1 : hd 0 (map (gpot V) l) = gpot V g0) by (destruct l; [congruence|cbn in *; congruence]).
+    assert (H2 : last (map (gpot V) l) 0 = gpot V glast).
+    { clear - Hlast Hne. induction l as [|x r IH]; [congruence|]. destruct r as [|y r'].
+      - cbn in *. congruence.
+      - change (last (map (gpot V) (x :: y :: r')) 0) with (last (map (gpot V) (y :: r')) 0). apply IH; [exact Hlast|discriminate]. }
+    lia.
+  Qed.
+
+  (* ... and the final potential is at most (copies held in the final world) * (V+1)^2 *)
+  Theorem gpot_bound V g : reachable zc strict g -> bounded V g ->
+    gpot V g <= nsum (map (fun n => N.of_nat (length (cs_nodes (nd_cs n))) * (V + 1) * (V + 1)) (w_nodes (g_w g))).
+  Proof.
+    intros Hr Hb. pose proof (reachable_versions_below V g Hr Hb) as HV. unfold gpot, node_at in *.
+    induction (w_nodes (g_w g)) as [|n l IH]; [cbn; lia|]. cbn [map nsum].
+    pose proof (potential_bound V n (HV 0%nat n eq_refl)).
+    assert (nsum (map (potential V) l) <= nsum (map (fun n0 => N.of_nat (length (cs_nodes (nd_cs n0))) * (V + 1) * (V + 1)) l)).
+    { apply IH. intros a m Hm. apply (HV (S a) m). exact Hm. }
+    lia.
+  Qed.
 End Conv.
